@@ -400,6 +400,22 @@ func c01Purity(c *Ctx) {
 					if f := an.CalleeObj(x.Common()); f != nil && f.Pkg() != nil && (f.Pkg().Path() == "math/rand" || f.Pkg().Path() == "crypto/rand") {
 						c.R.Fail("R-C01-4", name+":randomness", name, c.pos(x.Pos()), "call to "+f.FullName(), "no randomness on the RA-building path", "rebuilding yields a different RA")
 					}
+					// in-place slice operations on plugin-owned slices (slices.Insert/Delete/Sort…, sort.*, copy)
+					if f := an.CalleeObj(x.Common()); f != nil && f.Pkg() != nil && (f.Pkg().Path() == "slices" || f.Pkg().Path() == "sort") && len(x.Common().Args) > 0 {
+						switch f.Name() {
+						case "Insert", "Delete", "DeleteFunc", "Replace", "Sort", "SortFunc", "SortStableFunc", "Reverse", "Compact", "CompactFunc", "Slice", "SliceStable", "Stable", "Strings", "Ints":
+							first := c.XO.Of(x.Common().Args[0])
+							if first.Op == an.OpField && first.Args[0].Op == an.OpParam && first.Args[0].Idx == 0 && fn.Signature.Recv() != nil && !strings.HasSuffix(typeStr(first.Args[0].Typ), "ndp.RouterAdvertisement") {
+								c.R.Fail("R-C01-4", name+":in-place-"+f.Name()+"-on-plugin-slice", name, c.pos(x.Pos()), f.FullName()+"("+first.String()+", …)", "plugin-owned slices are never modified in place while building an RA", "Apply can shift/sort the plugin's own backing array: the configuration changes between RAs")
+							}
+						}
+					}
+					if bi, ok := x.Common().Value.(*ssa.Builtin); ok && bi.Name() == "copy" {
+						first := c.XO.Of(x.Common().Args[0])
+						if first.Contains(func(e *an.Expr) bool { return e.Op == an.OpField && e.Args[0].Op == an.OpParam && e.Args[0].Idx == 0 }) && fn.Signature.Recv() != nil && !strings.Contains(first.String(), "Options") {
+							c.R.Fail("R-C01-4", name+":copy-into-plugin-slice", name, c.pos(x.Pos()), "copy("+first.String()+", …)", "plugin-owned slices are never modified in place while building an RA", "configuration changes between RAs")
+						}
+					}
 					// append into plugin-owned slices
 					if bi, ok := x.Common().Value.(*ssa.Builtin); ok && bi.Name() == "append" {
 						first := c.XO.Of(x.Common().Args[0])
